@@ -72,13 +72,6 @@ theorem roundtrip_lines_iff (ls : List Str) :
 
 example : read (joinLines [['a', '\r', 'b']]) = [['a'], ['b']] := by decide
 
-/-- negation witness (known finding unsplit-command-interleaved): a command created with split=False
-    has a `str` as content; `"\n".join(content)` then iterates its CHARACTERS, so the two-character
-    output "ab" is written as "a\nb" and loads as two lines -/
-theorem unsplit_command_witness :
-    read (joinLines (['a', 'b'].map (fun c => [c]))) = [['a'], ['b']] ∧
-    read (joinLines (['a', 'b'].map (fun c => [c]))) ≠ [['a', 'b']] := by decide
-
 /-! ### 2. location, command, arguments -/
 
 /-- `save_as` has no leading '/' when it is set -/
@@ -229,25 +222,27 @@ def WellFormed (p : Provider) : Prop :=
   ((p.kind = .text ∨ p.kind = .raw ∨ p.kind = .datasource) → p.cmd = none ∧ p.args = .none) ∧
   (p.kind = .containerFile → p.cmd.isSome ∧ p.args = .none)
 
-/-- FULL STATEMENT (false of the current code, see `roundtrip_meta_witness`): whatever is persisted
-    loads with the same relative location, command and arguments -/
+/-- the property's clause, as one statement: whatever is persisted loads with the same relative
+    location, command and arguments — for EVERY kind (proved below: `roundtrip_meta_full`) -/
 def RoundtripMetaFull : Prop :=
   ∀ (host : Bool) (root : Str) (fs fs' : FS) (p : Provider) (d : ResDoc),
     WellFormed p → startsWithC sep p.relativePath = false → NormalSaveAs p.saveAs →
     serializeOne host root fs p = .ok (d, fs') →
     ∃ l, deserialize root fs' d = some l ∧ l.relativePath = relOf p ∧ l.cmd = p.cmd ∧ l.args = p.args
 
-/-- For every kind except the container file, every save_as form and every root: the document names
-    `relOf p`, the loaded provider has exactly that relative location, its path is the file the
-    serializer wrote (which holds the text just written), and command and arguments are the persisted
-    ones; the container identity (image, engine, container id) survives for both container kinds. -/
-theorem roundtrip_meta_partial (host : Bool) (root : Str) (fs fs' : FS) (p : Provider) (d : ResDoc)
+/-- For every kind (text, raw, datasource, command, container file, container command), every
+    save_as form and every root: the document names `relOf p`, the loaded provider has exactly that
+    relative location, its path is the file the serializer wrote (which holds the text just
+    written), command and arguments are the persisted ones, and the container identity (image,
+    engine, container id) survives for both container kinds. -/
+theorem roundtrip_meta (host : Bool) (root : Str) (fs fs' : FS) (p : Provider) (d : ResDoc)
     (hw : WellFormed p) (hrp : startsWithC sep p.relativePath = false) (hsa : NormalSaveAs p.saveAs)
-    (hs : serializeOne host root fs p = .ok (d, fs')) (hk : p.kind ≠ .containerFile) :
+    (hs : serializeOne host root fs p = .ok (d, fs')) :
     ∃ l, deserialize root fs' d = some l ∧ d.obj.relativePath = relOf p ∧ l.relativePath = relOf p ∧
       l.path = pjoin root (relOf p) ∧ (writeText host p = .ok t → fs'.read l.path = some t) ∧
       l.cmd = p.cmd ∧ l.args = p.args ∧
-      (p.kind = .containerCommand → l.image = p.image ∧ l.engine = p.engine ∧ l.containerId = p.containerId) := by
+      (p.kind = .containerCommand ∨ p.kind = .containerFile →
+        l.image = p.image ∧ l.engine = p.engine ∧ l.containerId = p.containerId) := by
   unfold serializeOne at hs
   cases hwt : writeText host p with
   | error f => simp [hwt] at hs
@@ -259,13 +254,14 @@ theorem roundtrip_meta_partial (host : Bool) (root : Str) (fs fs' : FS) (p : Pro
     have hdes : ∃ l, deserialize root (fs.write (pjoin root (relOf p)) tx) ⟨p.kind, docOf p (relOf p)⟩ = some l ∧
         l.relativePath = relOf p ∧ l.path = pjoin root (relOf p) ∧
         l.cmd = (docOf p (relOf p)).cmd ∧ l.args = (docOf p (relOf p)).args ∧
-        (p.kind = .containerCommand → l.image = p.image ∧ l.engine = p.engine ∧ l.containerId = p.containerId) := by
+        (p.kind = .containerCommand ∨ p.kind = .containerFile →
+          l.image = p.image ∧ l.engine = p.engine ∧ l.containerId = p.containerId) := by
       unfold deserialize
       simp only [docOf, hrel, FS.read_write_same, Option.isSome_some, if_true]
       refine ⟨_, rfl, rfl, rfl, ?_, ?_, ?_⟩
       · cases hkind : p.kind <;> simp_all
       · cases hkind : p.kind <;> simp_all
-      · intro hc; simp [hc]
+      · intro hc; rcases hc with hc | hc <;> simp [hc]
     obtain ⟨l, h1, h2, h3, h4, h5, h6⟩ := hdes
     refine ⟨l, h1, rfl, h2, h3, ?_, ?_, ?_, h6⟩
     · intro ht
@@ -274,26 +270,14 @@ theorem roundtrip_meta_partial (host : Bool) (root : Str) (fs fs' : FS) (p : Pro
     · rw [h4]; cases hkind : p.kind <;> simp_all [WellFormed, docOf]
     · rw [h5]; cases hkind : p.kind <;> simp_all [WellFormed, docOf]
 
-/-- the container-file pair: location and container identity survive, the command does not
-    (serialize_container_file_output writes no "cmd", deserialize_container_file sets none) -/
-theorem container_file_meta (host : Bool) (root : Str) (fs fs' : FS) (p : Provider) (d : ResDoc)
-    (hrp : startsWithC sep p.relativePath = false) (hsa : NormalSaveAs p.saveAs)
-    (hs : serializeOne host root fs p = .ok (d, fs')) (hk : p.kind = .containerFile) :
-    ∃ l, deserialize root fs' d = some l ∧ l.relativePath = relOf p ∧ l.path = pjoin root (relOf p) ∧
-      l.image = p.image ∧ l.engine = p.engine ∧ l.containerId = p.containerId ∧ l.cmd = none := by
-  unfold serializeOne at hs
-  cases hwt : writeText host p with
-  | error f => simp [hwt] at hs
-  | ok tx =>
-    simp only [hwt, Except.ok.injEq, Prod.mk.injEq] at hs
-    obtain ⟨hd, hfs⟩ := hs
-    subst hd hfs
-    have hrel := lstripC_of_not_start sep _ (relOf_relative p hrp hsa)
-    unfold deserialize
-    simp only [docOf, hrel, FS.read_write_same, Option.isSome_some, if_true]
-    exact ⟨_, rfl, rfl, rfl, by simp [hk], by simp [hk], by simp [hk], by simp [hk]⟩
+/-- the clause at full strength -/
+theorem roundtrip_meta_full : RoundtripMetaFull := by
+  intro host root fs fs' p d hw hrp hsa hs
+  obtain ⟨l, h1, _, h2, _, _, h3, h4, _⟩ := roundtrip_meta (t := []) host root fs fs' p d hw hrp hsa hs
+  exact ⟨l, h1, h2, h3, h4⟩
 
-/-- the provider `container_collect` builds for `("img", "podman", "c1", "/etc/x")` -/
+/-- the provider `container_collect` builds for `("img", "podman", "c1", "/etc/x")` (regression case
+    of the repaired defect a8098eb: its cmd used to load as None) -/
 def containerFileWitness : Provider :=
   { kind := .containerFile, relativePath := ['c', '1', '/', 'e', 't', 'c', '/', 'x'],
     cmd := some ['/', 'u', 's', 'r', '/', 'b', 'i', 'n', '/', 'p', 'o', 'd', 'm', 'a', 'n', ' ', 'e', 'x', 'e', 'c', ' ',
@@ -301,20 +285,9 @@ def containerFileWitness : Provider :=
     image := some ['i', 'm', 'g'], engine := some ['p', 'o', 'd', 'm', 'a', 'n'], containerId := some ['c', '1'],
     load := .ok [['x']] }
 
-/-- negation witness (known finding container-file-cmd-dropped): a container file loads with cmd None -/
-theorem roundtrip_meta_witness : ¬ RoundtripMetaFull := by
-  intro h
-  have hs : serializeOne false [] [] containerFileWitness
-      = .ok (⟨.containerFile, docOf containerFileWitness (relOf containerFileWitness)⟩,
-             FS.write [] (pjoin [] (relOf containerFileWitness)) ['x']) := by rfl
-  obtain ⟨l, hl, _, hc, _⟩ := h false [] [] _ containerFileWitness _
-    (by simp [WellFormed, containerFileWitness]) (by decide) (by intro s hs; simp [containerFileWitness, truthy] at hs) hs
-  have hd : (deserialize [] (FS.write [] (pjoin [] (relOf containerFileWitness)) ['x'])
-      ⟨.containerFile, docOf containerFileWitness (relOf containerFileWitness)⟩).map (·.cmd) = some none := by decide
-  rw [hl] at hd
-  simp only [Option.map_some, Option.some.injEq] at hd
-  rw [hd] at hc
-  simp [containerFileWitness] at hc
+example : (deserialize [] (FS.write [] (pjoin [] (relOf containerFileWitness)) ['x'])
+      ⟨.containerFile, docOf containerFileWitness (relOf containerFileWitness)⟩).map (·.cmd)
+    = some containerFileWitness.cmd := by decide
 
 /-- `rc` is never persisted: every document carries null, whatever the provider's rc was
     (`rc = obj.write(dst)` and `write` returns None) -/
@@ -334,7 +307,7 @@ theorem rc_not_persisted (host : Bool) (root : Str) (fs fs' : FS) (p : Provider)
     refuses empty content) is serialized, and the provider deserialized from the document reads
     `ls` up to one trailing empty line. -/
 theorem roundtrip_provider (host : Bool) (root : Str) (fs : FS) (p : Provider) (ls : List Str)
-    (hkind : p.kind ≠ .raw) (hload : p.load = .ok ls) (hb : ∀ l ∈ ls, NoBreak l)
+    (hkind : p.kind ≠ .raw) (hsplit : p.unsplit = false) (hload : p.load = .ok ls) (hb : ∀ l ∈ ls, NoBreak l)
     (hne : host = true → ls ≠ [])
     (hrp : startsWithC sep p.relativePath = false) (hsa : NormalSaveAs p.saveAs) :
     ∃ d fs' l, serializeOne host root fs p = .ok (d, fs') ∧ deserialize root fs' d = some l ∧
@@ -356,8 +329,46 @@ theorem roundtrip_provider (host : Bool) (root : Str) (fs : FS) (p : Provider) (
 
 example : ∃ d fs' l, serializeOne true ['r'] [] { kind := .command, relativePath := ['l', 's'], load := .ok [['a'], []] } = .ok (d, fs')
     ∧ deserialize ['r'] fs' d = some l ∧ loadedContent fs' l = some [['a']] :=
-  roundtrip_provider true ['r'] [] _ [['a'], []] (by decide) rfl (by decide) (by decide) (by decide)
+  roundtrip_provider true ['r'] [] _ [['a'], []] (by decide) rfl rfl (by decide) (by decide) (by decide)
     (by intro s hs; simp [truthy] at hs)
+
+/-- A command created with split=False has ONE string `s` as content.  It is written as it is, and
+    what loads (a text provider) is exactly the text-mode lines of that string: `read s` — its pieces
+    between line breaks ("\n", "\r\n", "\r"), without the break, a final piece only if non-empty.
+    (Regression of the repaired defect fd0f959: the characters used to be joined one per line.) -/
+theorem unsplit_roundtrip (host : Bool) (root : Str) (fs : FS) (p : Provider) (s : Str)
+    (hkind : p.kind ≠ .raw) (hsplit : p.unsplit = true) (hload : p.load = .ok [s])
+    (hne : host = true → s ≠ [])
+    (hrp : startsWithC sep p.relativePath = false) (hsa : NormalSaveAs p.saveAs) :
+    ∃ d fs' l, serializeOne host root fs p = .ok (d, fs') ∧ deserialize root fs' d = some l ∧
+      fs'.read l.path = some s ∧ loadedContent fs' l = some (read s) := by
+  have hwt : writeText host p = .ok s := by
+    unfold writeText
+    cases hk : p.kind <;> simp_all
+    all_goals (intro hh he; exact hne hh he)
+  have hrel := lstripC_of_not_start sep _ (relOf_relative p hrp hsa)
+  refine ⟨⟨p.kind, docOf p (relOf p)⟩, fs.write (pjoin root (relOf p)) s, ?_⟩
+  have hser : serializeOne host root fs p =
+      .ok (⟨p.kind, docOf p (relOf p)⟩, fs.write (pjoin root (relOf p)) s) := by
+    simp [serializeOne, hwt]
+  have hraw : (p.kind == Kind.raw) = false := by simpa using hkind
+  unfold deserialize
+  simp only [docOf, hrel, FS.read_write_same, Option.isSome_some, if_true]
+  refine ⟨_, hser, rfl, FS.read_write_same _ _ _, ?_⟩
+  simp [loadedContent, FS.read_write_same, hraw]
+
+/-- … so when the string is lines (without line-break characters inside) joined by "\n", with or
+    without a final "\n", those lines load — up to one trailing empty line, as for a split command -/
+theorem unsplit_lines (ls : List Str) (h : ∀ l ∈ ls, NoBreak l) :
+    read (joinLines ls) = dropOneTrailingEmpty ls ∧
+    read (joinLines (ls ++ [[]])) = dropOneTrailingEmpty (ls ++ [[]]) :=
+  ⟨roundtrip_lines ls h, roundtrip_lines _ (by
+    intro l hl
+    rcases List.mem_append.mp hl with m | m
+    · exact h l m
+    · simp only [List.mem_cons, List.not_mem_nil, or_false] at m; subst m; exact ⟨by simp, by simp⟩)⟩
+
+example : read ['a', 'b', '\n', 'c', 'd', '\n'] = [['a', 'b'], ['c', 'd']] := by decide
 
 /-- Raw files: the bytes come back unchanged, whatever they are (no line handling at all; an empty
     file is collected too — RawFileProvider.write never looks at `content`). -/
@@ -403,7 +414,7 @@ theorem multi_order (host : Bool) (root : Str) (fs : FS) (ps : List Provider) :
 theorem unmarshal_order (root : Str) (fs : FS) (ds : List ResDoc) (ls : List Loaded)
     (h : unmarshal root fs (.many ds) = some (.multi ls)) :
     ls.map (·.relativePath) = ds.map (fun d => lstripC sep d.obj.relativePath) ∧
-    ls.map (·.cmd) = ds.map (fun d => if d.type == .command || d.type == .containerCommand then d.obj.cmd else none) := by
+    ls.map (·.cmd) = ds.map (fun d => if d.type == .command || d.type == .containerCommand || d.type == .containerFile then d.obj.cmd else none) := by
   simp only [unmarshal, Option.map_eq_some_iff, LoadedValue.multi.injEq] at h
   obtain ⟨ls', h, rfl⟩ := h
   induction ds generalizing ls' with
@@ -470,7 +481,7 @@ def collisionWitness : List Provider :=
   [{ kind := .text, relativePath := ['e', 't', 'c', '/', 'a', '/', 'c', 'o', 'n', 'f'], saveAs := some ['c', 'o', 'n', 'f', 's', '/'], load := .ok [['A']] },
    { kind := .text, relativePath := ['e', 't', 'c', '/', 'b', '/', 'c', 'o', 'n', 'f'], saveAs := some ['c', 'o', 'n', 'f', 's', '/'], load := .ok [['B']] }]
 
-/-- negation witness (known finding save-as-basename-collision): with a directory-form save_as two
+/-- negation witness (known finding destination-collision): with a directory-form save_as two
     elements with the same base name are written to the same file; the first element then loads the
     second one's content -/
 theorem multi_roundtrip_witness : ¬ MultiRoundtripFull := by
